@@ -204,9 +204,10 @@ PROPS["C13"] = {
 
 PROPS["C19"] = {
     "level": "proof",
-    "contracts": [("contracts.freeze", "xdis.codetype.code30:Code3.encode_lineno_tab"), ("contracts.freeze", "xdis.codetype.code15:Code15.encode_lineno_tab")],
+    "contracts": [("contracts.freeze", "xdis.codetype.code30:Code3.encode_lineno_tab"), ("contracts.freeze", "xdis.codetype.code15:Code15.encode_lineno_tab"),
+                  ("contracts.freeze", "xdis.codetype.code310:Code310.encode_lineno_tab")],
     "bounded": [("ground.freeze_roundtrip", "check")],
-    "technique": "loop-invariant proof of the two lnotab encoders against a ghost transcription of CPython's lnotab reader (the reader's state after the bytes appended so far); bounded round trip through xdis and the real CPython decoders for the 3.10 encoder and freeze()'s table normalisation",
+    "technique": "loop-invariant proofs of the three line-table encoders against ghost transcriptions of CPython's readers (the reader's state after the bytes appended so far); bounded round trip through xdis and the real CPython decoders for freeze()'s table normalisation and end to end",
     "assumptions": [],
 }
 
@@ -271,8 +272,8 @@ _T = {
          "object coercion (functions, methods, generators, source strings -> code) and module-level tables are compared with the host's dis only by the bounded host differential; code objects with an exception table take the exception_entries path that is outside the driver's contract; dict(findlinestarts(..)) is an abstract map tied to its source sequence."),
  "C16": ("codeType2Portable, Code38/Code310/Code311.to_native and Code13.replace are proved, for each host 3.8-3.13 (attribute set and positional constructor order of types.CodeType taken from the real interpreters), to map every field to the same field (in particular the host's real line table and exception table), to choose the portable class of the host's version, and to leave the original object unchanged.",
          "field values are abstract tokens (identity + type): a plumbing proof; types.CodeType is an external constructor modelled by its positional order; a frame condition (no attribute added to the portable object) is part of the contract."),
- "C19": ("The two lnotab encoders behind freeze() - Code3.encode_lineno_tab (3.0-3.9, for the unsigned reader of 3.0-3.5 and the signed reader of 3.6-3.9, with and without decreasing lines) and Code15.encode_lineno_tab (1.5-2.7) - are proved with loop invariants for every table of strictly increasing offsets starting at 0 whose consecutive lines differ, every first line, every gap size: the byte string under construction is tracked through a ghost transcription of CPython's lnotab reader (pyvc HAcc); every appended pair is two bytes in 0..255, whenever the reader would yield a line start it is exactly the previous table entry, after entry k it has yielded k pairs and stands at (offset_k, line_k). The 3.10 encoder (nested emitter, range format) and freeze()'s dict/list normalisation are covered only by the bounded round trip through xdis's and the matching CPython's decoders (2.7, 3.7-3.10).",
-         "the ghost reader is a transcription of dis.findlinestarts (<= 3.9, without the 3.8+ end-of-code cut) - trusted, cross-checked by the bounded round trip through the real CPythons; duplicate consecutive lines and equal offsets are outside the proved domain (a dict has distinct offsets; the reader itself drops duplicate lines); unsigned tables: lines must not decrease (the encoder skips such entries by design); Code310 encoder: bounded only."),
+ "C19": ("All three line-table encoders behind freeze() are proved with loop invariants against ghost transcriptions of CPython's readers (pyvc HAcc: the byte string under construction is tracked as the state the reader would be in after reading it): Code3.encode_lineno_tab (3.0-3.9; unsigned reader of 3.0-3.5, signed reader of 3.6-3.9, with and without decreasing lines), Code15.encode_lineno_tab (1.5-2.7) and Code310.encode_lineno_tab (3.10 range format, including its nested emitter function and the 'no line' prefix), for every table of strictly increasing offsets whose consecutive lines differ, every first line, every gap size: every appended pair is two bytes in 0..255; whenever the reader would yield a line start it is exactly the table entry it must be; after entry k it has yielded exactly the first k (3.10: k+1) entries and stands at the right offset and line; the 3.10 ranges end at len(co_code). freeze()'s dict/list normalisation and the end-to-end result are additionally round-tripped through xdis's and the matching CPython's decoders (2.7, 3.7-3.10): bounded.",
+         "the ghost readers are transcriptions of dis.findlinestarts (<= 3.9 without the 3.8+ end-of-code cut; 3.10 over co_lines()) - trusted, cross-checked by the bounded round trip through the real CPythons; duplicate consecutive lines and equal offsets are outside the proved domain (a dict has distinct offsets; the readers themselves drop duplicate lines); unsigned tables: first offset 0 and lines must not decrease (the encoder skips such entries by design); 3.10: the last entry's range must be non-empty (len(co_code) beyond the last offset)."),
  "C11": ("Exception escape is proved for load_module_from_file_object: for the magic word of every final release, every PyPy magic of the corpus, every other magic in xdis's own tables, the dropbox magics and unknown words, for all file contents of at least 50 bytes (what load_module guarantees) and whatever the code readers do - each external reader may raise an exception of unknown class at its call - the function returns a 7-tuple (or the dropbox decoder's result) or raises ImportError, and closes nothing twice; a frame obligation per function reachable from load_module (151, over an over-approximated call graph) shows no exec/eval/compile/dynamic import/file-system write primitive. Termination, memory and the unmarshaller's own behaviour on corrupt data are covered by a bounded hostile-input sweep (prefixes, byte flips, insertions, adversarial lengths and references, deep nesting, every magic word) under time and address-space limits with CPython audit hooks.",
          "KeyboardInterrupt/SystemExit not modelled; load_module's size check and open() are assumed to see the same file (no race); RecursionError raised inside the readers is converted to ImportError like any other exception (counts as failing cleanly); static frame analysis recognises primitives by spelling; the unmarshaller's termination on hostile input is bounded evidence only."),
  "C18": ("History independence is decided as a frame condition: for each of the 235 functions reachable from the public operations (load_module, disassemble_file, get_opcode / get_opcode_module, make_std_api, marsh dump(s)/load(s), load_code, Bytecode, the label and line-start finders) one obligation shows that its body writes no module-level or class-level container, no mutable default argument (also not by letting it escape into an attribute), keeps no memo (@lru_cache) and patches no table except by save/restore in a finally block; remap_opcodes is the documented exception. Two alias forms are tracked statically (a local bound to a module-/class-level object; self.attr bound to another object's attribute without copying); other aliasing is left to the bounded history replay: a 97-operation catalogue, each operation alone in a fresh interpreter vs inside random sequences, with digests of every process-wide container before and after each operation.",
